@@ -138,6 +138,35 @@ CHECKS = {
                   "storages validated by TLC against the storage contract (trace validation)",
         ref="DESIGN.md section 4 C08, section 3.5",
     ),
+    "C10": dict(
+        text="Suggest.tla: per trial the five-way decision of Trial._suggest (reuse / fixed / single-point / relative if "
+             "contained / independent) with the sampler as a nondeterministic choice constrained to the domain; "
+             "ValueInDomain, SameNameSameValue, FixedWins, StoredEqualsReturned model-checked (the out-of-range fixed value "
+             "D7 must be reachable). About 1 450 real trials per run: lattice and extreme distributions (steps not dividing "
+             "the range, single points, log ranges near 1, huge/tiny ranges) x 10 sampler configurations x prior histories "
+             "incl. the same name under a wider/misaligned range, relative and independent mode; each suggest call is "
+             "repeated, the value is classified with exact rational arithmetic, and the stored value is re-read (in-memory, "
+             "SQLite and journal through a fresh storage object); TLC validates each trial against SuggestTrace.",
+        note="Thin spec (as announced): the sampler's arithmetic is observed, not modelled; log-scaled floats are decided "
+             "within 4 doubles. CmaEs is not installed; NSGA in-memory only (K9). Vacuity guards: all seven branches and a "
+             "relative sample per relative-capable sampler must occur.",
+        technique="TLA+ protocol spec model-checked with TLC; real suggest calls classified exactly and validated by TLC "
+                  "(trace validation)",
+        ref="DESIGN.md section 4 C10, section 3.7",
+    ),
+    "C11": dict(
+        text="Domain.tla: distributions on a decimal lattice as scaled integers with exact AdjustHigh, Grid, Contains, "
+             "Single, Compatible (theorems model-checked). The 500-input lattice at three decimal scales (count "
+             "cross-checked with TLC) plus 28 extreme shapes: JSON round trip and its second iterate, adjusted high, single, "
+             "containment of grid values and near misses before/after a round trip, internal/external representation, "
+             "compatibility on all pairs, and _SearchSpaceTransform round trips and box points under all eight flag "
+             "combinations; about 61 000 events per run, each judged by TLC (DomainTrace) on exact tokens.",
+        note="Thin for log-scaled floats (within 4 doubles); stepped floats are on the grid within 1e-8*step, as "
+             "FloatDistribution._contains documents; D14 (exactly-high maps to the double below high) admitted.",
+        technique="TLA+ exact-arithmetic oracle model-checked with TLC; real distribution/transform answers validated by "
+                  "TLC (trace validation)",
+        ref="DESIGN.md section 4 C11, section 3.7",
+    ),
     "C12": dict(
         text="Best.tla: EligibleBest(history, direction) with the feasibility classes, ParetoSet via Pareto.tla; 17 oracle "
              "theorems model-checked over all histories of the bounded instances. Every history of the instances (all five "
